@@ -181,7 +181,15 @@ func (p *Prog) IsRepo(fn *ssa.Function) bool {
 	for fn != nil && fn.Parent() != nil {
 		fn = fn.Parent()
 	}
-	if fn == nil || fn.Pkg == nil {
+	if fn == nil {
+		return false
+	}
+	if fn.Pkg == nil {
+		// synthetic wrappers (bound-method closures, method-expression thunks, promoted-method wrappers) belong to
+		// the package of the method they wrap
+		if fn.Synthetic != "" && fn.Object() != nil && fn.Object().Pkg() != nil {
+			return strings.HasPrefix(fn.Object().Pkg().Path(), ModPath)
+		}
 		return false
 	}
 	return strings.HasPrefix(fn.Pkg.Pkg.Path(), ModPath)
